@@ -29,15 +29,22 @@ impl Subject for SList {
         let a = actor?;
         let len = s.len();
         match idx(e.kind, 10) {
-            0..=4 => {
-                // insert at any index, including beyond the length (clamped by the library)
-                let i = idx(e.a, len + 3);
+            0..=5 => {
+                // insert at any index, including beyond the length (clamped by the library); biased to a few
+                // "hot" gaps so that several actors keep inserting concurrently into the same gap (nested siblings)
+                let i = match idx(e.b, 10) {
+                    0..=3 => 1.min(len),
+                    4 => 0,
+                    5 => (len / 2).max(1).min(len),
+                    6 => len,
+                    _ => idx(e.a, len + 3),
+                };
                 let tag = aux.fresh();
                 let op = s.insert_index(i, tag, a);
                 let d = op.dot();
                 Some((op.clone(), Sem::ListIns { tag, dot: (d.actor, d.counter) }, format!("insert_index({i}, {tag}) [len {len}] -> id {}", op.id())))
             }
-            5 | 6 => {
+            6 | 7 => {
                 let tag = aux.fresh();
                 let op = s.append(tag, a);
                 let d = op.dot();
@@ -88,6 +95,16 @@ impl Subject for SList {
         }
         if s.position(seq.len()).is_some() {
             api.push("position(len) is Some".into());
+        }
+        // the identifiers held by one replica are strictly increasing in BOTH comparison directions
+        // (an asymmetric or non-transitive comparison shows here before replicas visibly diverge)
+        let ids: Vec<_> = s.iter_entries().map(|(id, _)| id.clone()).collect();
+        for i in 0..ids.len() {
+            for j in i + 1..ids.len() {
+                if !(ids[i] < ids[j]) || !(ids[j] > ids[i]) || ids[i] == ids[j] {
+                    api.push(format!("identifiers of elements #{i} and #{j} are not strictly ordered in both directions: {} vs {}", ids[i], ids[j]));
+                }
+            }
         }
         if s.first() != seq.first() || s.last() != seq.last() {
             api.push("first()/last() inconsistent".into());
